@@ -154,6 +154,10 @@ impl Story {
         let output_stream_before = self.get_state().get_output_stream().clone();
         self.get_state_mut().reset_output(None);
 
+        // ... and where the story last stood: visit counting compares the position a divert
+        // leaves with the one it enters, and the function must not pass for the former.
+        let previous_pointer_before = self.get_state().get_previous_pointer();
+
         // State will temporarily replace the callstack in order to evaluate
         self.get_state_mut()
             .start_function_evaluation_from_game(func_container.unwrap(), args)?;
@@ -171,8 +175,11 @@ impl Story {
             .reset_output(Some(output_stream_before));
 
         // Finish evaluation, and see whether anything was produced
-        self.get_state_mut()
-            .complete_function_evaluation_from_game()
+        let result = self
+            .get_state_mut()
+            .complete_function_evaluation_from_game();
+        self.get_state().set_previous_pointer(previous_pointer_before);
+        result
     }
 
     pub(crate) fn visit_changed_containers_due_to_divert(&mut self) {
